@@ -46,13 +46,14 @@ def resolve(bindings, package, ref, runner, annotate, vals):
     return _unwrap(r) == want, f"{where}: expected {want}, got {_unwrap(r)!r:.100}"
 
 
-def macro(i, runner, vals):
+def macro(i, runner, vals, pkg=None):
     from celpy import celtypes as ct
     src, names, f = M.MACROS[i]
-    prog = make_program(src, runner)
-    kd, r = evaluate_outcome(lambda: prog.evaluate({n: ct.IntType(vals[n]) for n in names}))
+    prog = make_program(src, runner, package=pkg)
+    kd, r = evaluate_outcome(lambda: prog.evaluate({(f"{pkg}.{n}" if pkg else n): ct.IntType(vals[n]) for n in names}))
     want = f(vals)
-    return kd == "value" and int(r) == want, f"`{src}` with {vals} under {runner}: expected {want}, got {kd} {r!r:.80}"
+    where = f" in package {pkg} (outer variables bound as {pkg}.<name>)" if pkg else ""
+    return kd == "value" and int(r) == want, f"`{src}` with {vals} under {runner}{where}: expected {want}, got {kd} {r!r:.80}"
 
 
 def declared(runner, vals):
